@@ -281,6 +281,7 @@ def sp_root(ip, args, kwargs, node):
 
 def deepcopy(ip, args, kwargs, node):
     memo = {}
+    _copy_native.ip = ip
 
     def cp(v):
         if isinstance(v, Obj):
@@ -308,10 +309,18 @@ def deepcopy(ip, args, kwargs, node):
 
 
 def _copy_native(x, cp):
+    if hasattr(x, 'clone'):
+        return x.clone(_copy_native.ip)
     if isinstance(x, dict):
         return {k: cp(v) for k, v in x.items()}
     if isinstance(x, list):
-        return [cp(v) if not isinstance(v, dict) else dict(v) for v in x]
+        out = []
+        for v in x:
+            if isinstance(v, dict):
+                out.append({k: (cp(w) if isinstance(w, (Obj, Arr, View, Seq)) else w) for k, w in v.items()})
+            else:
+                out.append(cp(v))
+        return out
     return x
 
 
